@@ -121,6 +121,7 @@ mod tests {
             poll: PollOrder::Fwd,
             spurious: 0,
             udp: vec![],
+            lo_side: None,
         }
     }
 
